@@ -43,7 +43,8 @@ MECHANISMS_REQUIRED = [
     "jaxley.solver_voltage:_triang_branched", "jaxley.solver_voltage:step_voltage_implicit_with_jax_spsolve",
     "jaxley.utils.cell_utils:compute_axial_conductances", "jaxley.modules.base:Module.step",
 ]
-REQUIRED = {"quick": {"step_api": 150}, "thorough": {"step_api": 3000}}
+REQUIRED = {"quick": {"step_api": 150},
+            "thorough": {"step_api": 750}}
 WALL_BUDGET = {"quick": 1500, "thorough": 4 * 3600}
 
 
